@@ -471,6 +471,36 @@ func TestReplayC18(t *testing.T) {
 				}
 			}()
 		}
+		// one column chunk labelled with a codec the reader does not implement (every chunk of
+		// every row group in turn; the pages themselves are untouched, so in an uncompressed
+		// file the two page sizes agree)
+		fsize := int(file[len(file)-8]) | int(file[len(file)-7])<<8 | int(file[len(file)-6])<<16 | int(file[len(file)-5])<<24
+		body := file[:len(file)-8-fsize]
+		for gi, rg := range footer.RowGroups {
+			for _, col := range rg.Columns {
+				for _, cc := range []sch.CompressionCodec{sch.CompressionCodec_LZO, sch.CompressionCodec_BROTLI, sch.CompressionCodec_LZ4, sch.CompressionCodec_ZSTD, sch.CompressionCodec(9)} {
+					orig := col.MetaData.Codec
+					col.MetaData.Codec = cc
+					b, err := ser.Write(context.TODO(), footer)
+					col.MetaData.Codec = orig
+					if err != nil {
+						t.Fatal(err)
+					}
+					mod := append(append([]byte{}, body...), b...)
+					mod = append(mod, byte(len(b)), byte(len(b)>>8), byte(len(b)>>16), byte(len(b)>>24), 'P', 'A', 'R', '1')
+					func() {
+						defer func() {
+							if r := recover(); r != nil {
+								t.Errorf("REPLAY-FAIL C18 codec=%s row group %d column=%v chunk codec=%v: panic: %v", name, gi, col.MetaData.PathInSchema, cc, r)
+							}
+						}()
+						if got, err := readAll(bytes.NewReader(mod)); err == nil {
+							t.Errorf("REPLAY-FAIL C18 codec=%s row group %d column=%v chunk codec=%v: file accepted, %d rows delivered, no error", name, gi, col.MetaData.PathInSchema, cc, len(got))
+						}
+					}()
+				}
+			}
+		}
 	}
 }
 
